@@ -353,6 +353,9 @@ def _fill_in_default_arguments(
     keywords = list(call.keywords)
     for i_param, param in enumerate(sig.parameters.values()):
         is_receiver = has_receiver and i_param == 0
+        # `*args` and `**kwargs` take whatever else the call site has - nothing is required.
+        if param.kind in (param.VAR_POSITIONAL, param.VAR_KEYWORD):
+            continue
         # The stream operators (Select, Where, ...) keep exactly what the user wrote - their
         # extra parameters are for internal use only.
         if not is_receiver and fill_in_defaults:
